@@ -154,7 +154,7 @@ const V_LOG: u8 = 0x41;
 const NV_LOG: u8 = 0x40;
 const CTRL_REQ: u8 = (3 << 1) | (1 << 4);
 const CTRL_RESP: u8 = (3 << 1) | (2 << 4);
-const NW_TRACE_V: u8 = 0x01 | (2 << 1) | (5 << 4); // network trace, someip-ish mtin
+const NW_TRACE_V: u8 = 0x01 | (2 << 1) | (1 << 4); // verbose network trace, IPC (what the SOME/IP plugin listens to)
 const STD: u8 = UEH | WEID | WTMS;
 
 fn dlt_seeds() -> Vec<Seed> {
@@ -291,6 +291,25 @@ fn dlt_seeds() -> Vec<Seed> {
             s.msg(ecu, STD, V_LOG, 1, b"APP1", b"CTX1", *ts, &p);
         }
         v.push(s.seed("lifecycle_shapes", false));
+    }
+    v
+}
+
+/// the plugin-specific message pool of the C19 explorer (hits and near misses for NonVerbose, SOME/IP incl.
+/// segmented NWST/NWCH/NWEN, CAN, Muniic, Rewrite), serialised with the real writer, in chunks of 14 messages
+fn plugin_pool_seeds() -> Vec<Seed> {
+    let pool = crate::c19::pool();
+    let refs: Vec<&crate::c19::T> = pool.iter().collect();
+    let mut v = vec![];
+    for (ci, chunk) in refs.chunks(14).enumerate() {
+        let (_tags, msgs) = crate::c19::compose(chunk);
+        let mut bytes = vec![];
+        let mut bounds = vec![];
+        for m in &msgs {
+            bounds.push(bytes.len());
+            let _ = m.to_write(&mut bytes);
+        }
+        v.push(Seed { name: format!("plugin_pool_{ci}"), ext: "dlt", bytes, bounds, fields: vec![], pairwise: false });
     }
     v
 }
@@ -634,13 +653,13 @@ impl Prop for C03 {
         Meta {
             id: "C03",
             level: "fault_enumeration",
-            rule: "seed corpus = generated DLT traces covering every verbose argument type, non-verbose, header shapes, every control service id (request/response, non-verbose and verbose, with bodies for the parsed ones), FLST/FLDA/FLFI, network traces, lifecycle shapes + the first 40 messages of each repository .dlt example + the repository .asc/.txt/.log examples (prefixes). Mutation operators, each enumerated completely over every seed: (a) every truncation point, (b) every offset x {00,01,7F,80,FF,b^1,b^80}, (c) every recorded header/type-info/length/numeric/service-id/timestamp field x boundary table (service ids: all known ids, flag bytes: all 256 values), (d) every ordered pair splice of generated DLT seeds at message boundaries, (e, thorough) every pair of adjacent field corruptions for control and file-transfer seeds, (f) grammar products of text lines (timestamp forms x pid/level/tag/text shapes for logcat, time/channel/id/dlc/data for CAN-ASC incl. header lines, date/level/tag for generic logs). Every case runs the full chain on the real code: reader by extension, header/payload text, argument iteration, to_write, EacStats, lifecycle detection + listing, time sort, 10 filters (matches, match_filters, filter_as_streams), FileTransfer(save)/NonVerbose/SomeIp/CAN/Muniic/Rewrite/Anonymize plugins. Oracle: no panic (overflow checks on), no process death (worker isolation), no allocation request >= 32 MiB whose size the unmutated seeds never request. Non-trivial = at least one message was parsed or a violation occurred.".into(),
+            rule: "seed corpus = generated DLT traces covering every verbose argument type, non-verbose, header shapes, every control service id (request/response, non-verbose and verbose, with bodies for the parsed ones), FLST/FLDA/FLFI, network traces, lifecycle shapes + the plugin-specific message pool of the C19 explorer (NonVerbose / SOME/IP incl. segmented NWST-NWCH-NWEN / CAN / Muniic / Rewrite hits and near misses, 82 messages) + the first 40 messages of each repository .dlt example + the repository .asc/.txt/.log examples (prefixes). Mutation operators, each enumerated completely over every seed: (a) every truncation point, (b) every offset x {00,01,7F,80,FF,b^1,b^80}, (b2) every offset x 16-bit {0,FFFF,1} / 32-bit {0,FFFFFFFF} windows, (c) every recorded header/type-info/length/numeric/service-id/timestamp field x boundary table (service ids: all known ids, flag bytes: all 256 values), (d) every ordered pair splice of generated DLT seeds at message boundaries, (e, thorough) every pair of adjacent field corruptions for control and file-transfer seeds, (f) grammar products of text lines (timestamp forms x pid/level/tag/text shapes for logcat, time/channel/id/dlc/data for CAN-ASC incl. header lines, date/level/tag for generic logs). Every case runs the full chain on the real code: reader by extension, header/payload text, argument iteration, to_write, EacStats, lifecycle detection + listing, time sort, 10 filters (matches, match_filters, filter_as_streams), FileTransfer(save)/NonVerbose/SomeIp/CAN/Muniic/Rewrite/Anonymize plugins. Oracle: no panic (overflow checks on), no process death (worker isolation), no allocation request >= 32 MiB whose size the unmutated seeds never request. Non-trivial = at least one message was parsed or a violation occurred.".into(),
             assumptions: vec!["crash-freedom is decided for the enumerated neighbourhood, not for all byte strings".into(),
                 "FIBEX-configured plugins are re-created every 300 cases (their state carries over within such a window); a panic is re-checked on the single case by replay".into(),
                 "serial-framed DLT is covered through the byte operators on seeds re-framed with DLS markers".into()],
             budget_s: (45, 1500),
             workers: 0,
-            required_landmarks: vec!["parsed_messages", "multi_lifecycle", "op_truncate", "op_subst", "op_field", "op_splice", "op_grammar", "fmt_asc", "fmt_txt", "fmt_log", "fmt_serial"],
+            required_landmarks: vec!["parsed_messages", "multi_lifecycle", "op_truncate", "op_subst", "op_field", "op_splice", "op_grammar", "op_wide_subst", "fmt_asc", "fmt_txt", "fmt_log", "fmt_serial"],
         }
     }
     fn careful(&self) -> bool {
@@ -649,7 +668,9 @@ impl Prop for C03 {
     fn run(&self, ctx: &mut Ctx) {
         let thorough = ctx.tier == Tier::Thorough;
         let mut sh = Shared { chain: Chain::new(), baseline: vec![] };
-        let gen = dlt_seeds();
+        let mut gen = dlt_seeds();
+        let pool_seeds = plugin_pool_seeds();
+        gen.extend(pool_seeds.iter().cloned());
         let repo = repo_prefix_seeds();
         let text = text_seeds();
         // serial variants of two generated seeds: every storage header replaced by the serial marker
@@ -799,6 +820,35 @@ impl Prop for C03 {
                         check_time!(done);
                         if !done {
                             break 'b;
+                        }
+                    }
+                }
+            }
+        }
+        ctx.end_family(done);
+        if !done {
+            return;
+        }
+        // (b2) structure-blind multi-byte boundary values: every offset x {2-byte 0000, FFFF, 0001; 4-byte 00000000, FFFFFFFF}
+        ctx.begin_family("wide_subst", "every offset x 16-bit {0,0xFFFF,1} and 32-bit {0,0xFFFFFFFF} windows (generated + plugin-pool + serial seeds; repo prefixes in thorough)");
+        'w: for s in gen.iter().chain(serial.iter()).chain(repo.iter().filter(|_| thorough)) {
+            for off in 0..s.bytes.len().saturating_sub(1) {
+                for (w, val) in [(2usize, 0u32), (2, 0xFFFF), (2, 1), (4, 0), (4, 0xFFFF_FFFF)] {
+                    if off + w > s.bytes.len() {
+                        continue;
+                    }
+                    let newb = val.to_le_bytes();
+                    if s.bytes[off..off + w] == newb[..w] {
+                        continue;
+                    }
+                    if ctx.mine() {
+                        let mut b = s.bytes.clone();
+                        b[off..off + w].copy_from_slice(&newb[..w]);
+                        ctx.landmark("op_wide_subst");
+                        judge(ctx, &mut sh, &s.name, s.ext, &b, &|| json!({"op": "wide_subst", "seed": s.name, "offset": off, "width": w, "value": val, "ext": s.ext, "bytes_hex": hexs(&b)}));
+                        check_time!(done);
+                        if !done {
+                            break 'w;
                         }
                     }
                 }
